@@ -32,6 +32,7 @@ type ruleCase struct {
 	Card     spec.Card
 	Number64 bool // int64_encoding=NUMBER
 	BytesEnc int32 // bytes_encoding (0 = none)
+	MapKey   spec.T // key kind of a map field (0 = string)
 	Rules    *validate.FieldRules
 	Probes   []ruleProbe
 	Format   string // expected published format for well-known string rules
@@ -681,6 +682,32 @@ func ruleCatalogue() []ruleCase {
 	mapKV("map-values-in/string/one", nil, strItem(&validate.StringRules{In: []string{"v"}}), mapProbe("n0", 0), mapProbe("n2", 2))
 	mapKV("map-keys-pattern/string/k", strItem(&validate.StringRules{Pattern: proto.String("^k[0-9]+$")}), nil, mapProbe("n0", 0), mapProbe("n3", 3))
 	mapKV("map-keys+values/string/len", strItem(&validate.StringRules{MaxLen: proto.Uint64(3)}), strItem(&validate.StringRules{MinLen: proto.Uint64(1)}), mapProbe("n0", 0), mapProbe("n2", 2))
+	// maps whose KEY kind is not string (JSON member names are always strings) with and without rules on the keys
+	keyedProbe := func(class string, keys ...protoreflect.Value) ruleProbe {
+		return ruleProbe{Class: class, Set: func(m *dynamicpb.Message, fd protoreflect.FieldDescriptor) {
+			mp := m.Mutable(fd).Map()
+			for _, k := range keys {
+				mp.Set(k.MapKey(), protoreflect.ValueOfString("v"))
+			}
+		}}
+	}
+	i32 := func(n int32) protoreflect.Value { return protoreflect.ValueOfInt32(n) }
+	i32Rule := func(r *validate.Int32Rules) *validate.FieldRules { return &validate.FieldRules{Type: &validate.FieldRules_Int32{Int32: r}} }
+	out = append(out, ruleCase{ID: "rules/map-keys-gt/int32-key/zero", Kind: spec.String, Card: spec.Map, MapKey: spec.Int32, OneWay: true,
+		Rules:  &validate.FieldRules{Type: &validate.FieldRules_Map{Map: &validate.MapRules{Keys: i32Rule(&validate.Int32Rules{GreaterThan: &validate.Int32Rules_Gt{Gt: 0}})}}},
+		Probes: []ruleProbe{keyedProbe("n0"), keyedProbe("one-positive-key", i32(1)), keyedProbe("three-positive-keys", i32(1), i32(20), i32(300)), keyedProbe("a-negative-key", i32(-1))}})
+	out = append(out, ruleCase{ID: "rules/map-keys+max_pairs/int32-key/n=2", Kind: spec.String, Card: spec.Map, MapKey: spec.Int32, OneWay: true,
+		Rules:  &validate.FieldRules{Type: &validate.FieldRules_Map{Map: &validate.MapRules{MaxPairs: proto.Uint64(2), Keys: i32Rule(&validate.Int32Rules{LessThan: &validate.Int32Rules_Lte{Lte: 100}})}}},
+		Probes: []ruleProbe{keyedProbe("n0"), keyedProbe("n2", i32(1), i32(100)), keyedProbe("n3", i32(1), i32(2), i32(3))}})
+	out = append(out, ruleCase{ID: "rules/map-keys-const/bool-key/true", Kind: spec.String, Card: spec.Map, MapKey: spec.Bool, OneWay: true,
+		Rules:  &validate.FieldRules{Type: &validate.FieldRules_Map{Map: &validate.MapRules{Keys: &validate.FieldRules{Type: &validate.FieldRules_Bool{Bool: &validate.BoolRules{Const: proto.Bool(true)}}}}}},
+		Probes: []ruleProbe{keyedProbe("n0"), keyedProbe("true-key", protoreflect.ValueOfBool(true)), keyedProbe("false-key", protoreflect.ValueOfBool(false))}})
+	out = append(out, ruleCase{ID: "rules/map-min_pairs/uint32-key/n=1", Kind: spec.String, Card: spec.Map, MapKey: spec.Uint32,
+		Rules:  &validate.FieldRules{Type: &validate.FieldRules_Map{Map: &validate.MapRules{MinPairs: proto.Uint64(1)}}},
+		Probes: []ruleProbe{keyedProbe("n0"), keyedProbe("n1", protoreflect.ValueOfUint32(7)), keyedProbe("n2", protoreflect.ValueOfUint32(7), protoreflect.ValueOfUint32(4000000000))}})
+	out = append(out, ruleCase{ID: "rules/map-keys-in/int64-key/two", Kind: spec.String, Card: spec.Map, MapKey: spec.Int64, OneWay: true,
+		Rules:  &validate.FieldRules{Type: &validate.FieldRules_Map{Map: &validate.MapRules{Keys: &validate.FieldRules{Type: &validate.FieldRules_Int64{Int64: &validate.Int64Rules{In: []int64{5, 1<<53 + 1}}}}}}},
+		Probes: []ruleProbe{keyedProbe("n0"), keyedProbe("member", protoreflect.ValueOfInt64(5)), keyedProbe("big-member", protoreflect.ValueOfInt64(1<<53+1)), keyedProbe("outsider", protoreflect.ValueOfInt64(6))}})
 	return out
 }
 
@@ -709,7 +736,11 @@ func buildRuleUnitX(pkg, goName, svc string, cat []ruleCase, perRPC bool) *ruleU
 		case spec.Repeated:
 			fld.Rep()
 		case spec.Map:
-			fld.MapOf(spec.String)
+			if rc.MapKey != 0 {
+				fld.MapOf(rc.MapKey)
+			} else {
+				fld.MapOf(spec.String)
+			}
 		case spec.Optional:
 			fld.Opt()
 		}
